@@ -458,6 +458,15 @@ structure P1 where
   resume : Option Nat
 deriving Repr
 
+/-- one input goes into the batch: position = cached + pending length, `iBatch`/Outputs bookkeeping,
+    `seq.pendingInputs = append(seq.pendingInputs, inp)` -/
+def addInput (st : P1) (c : Cache) (sq : Seq) (inp : Tok) (i : Nat) : P1 :=
+  let sl := getSlot c.slots sq.slot
+  let batch := st.batch ++ [⟨inp, sl.inputs.length + sq.pending.length, sl.id⟩]
+  let outs := if i + 1 = sq.inputs.length then st.outs ++ [batch.length - 1] else st.outs
+  { st with cache := c, batch := batch, outs := outs,
+            seq := { sq with iBatch := st.outs.length, pending := sq.pending ++ [inp] } }
+
 /-- the inner `for i, inp := range seq.inputs` of processBatch (over the slice as it was when the
     loop started; `st.seq.inputs` is the field, which the reprocess path replaces) -/
 def innerLoop (batchSize seqIdx : Nat) : List Tok → Nat → P1 → Except Fail P1
@@ -466,13 +475,6 @@ def innerLoop (batchSize seqIdx : Nat) : List Tok → Nat → P1 → Except Fail
     if st.batch.length + 1 > batchSize then
       pure (if st.seq.pending.isEmpty && st.resume.isNone then { st with resume := some seqIdx } else st)
     else
-      let add (c : Cache) (sq : Seq) : Except Fail P1 :=
-        let sl := getSlot c.slots sq.slot
-        let batch := st.batch ++ [⟨inp, sl.inputs.length + sq.pending.length, sl.id⟩]
-        let outs := if i + 1 = sq.inputs.length then st.outs ++ [batch.length - 1] else st.outs
-        innerLoop batchSize seqIdx rest (i + 1)
-          { st with cache := c, batch := batch, outs := outs,
-                    seq := { sq with iBatch := st.outs.length, pending := sq.pending ++ [inp] } }
       let sl := getSlot st.cache.slots st.seq.slot
       if sl.inputs.length + st.seq.pending.length + 1 > st.cache.numCtx then
         if !st.seq.pending.isEmpty then pure st
@@ -482,8 +484,8 @@ def innerLoop (batchSize seqIdx : Nat) : List Tok → Nat → P1 → Except Fail
             -- `continue`: goes on with the NEXT element of the old slice
             innerLoop batchSize seqIdx rest (i + 1)
               { st with cache := c, seq := { st.seq with inputs := ins ++ st.seq.inputs } }
-          | .ok c => add c st.seq
-      else add st.cache st.seq
+          | .ok c => innerLoop batchSize seqIdx rest (i + 1) (addInput st c st.seq inp i)
+      else innerLoop batchSize seqIdx rest (i + 1) (addInput st st.cache st.seq inp i)
 
 structure Ph1 where
   sv : Server
@@ -613,6 +615,53 @@ def mkServer (resetEnd : Int) (parallel ctx batch : Nat) (multi canShift : Bool)
                cells := List.replicate (capacityV perSeqBatch parallel ctx batch window) Cell.free,
                window := window },
     seqs := List.replicate parallel none, nextSeq := 0, batchSize := batch, vocab := vocab, eosMod := eosMod }
+
+/-- what one event of a history reports (formatted by the oracle) -/
+inductive EvOut
+  | reqErrNewSeq | reqErrNoIndex | reqErrLoad
+  | reqOk (i slotId rest : Nat)
+  | busyPanic | busyErr | busyOk
+  | idle | badHint | stepErr
+  | stepOk (n : Nat) (o : StepObs)
+deriving Repr
+
+/-- one event of a request history on the server state; `none` = the history ended (processBatch
+    returned an error: `run()` panics).  `req` is the admission code of `completion`: NewSequence, the first
+    free entry of `s.seqs`, LoadCacheSlot, the new Sequence.  This is the function the oracle runs. -/
+def runEvent (sv : Server) (now : Nat) : Event → EvOut × Option Server
+  | .req keep np stops prompt =>
+    match newSequence sv.cache.numCtx prompt keep with
+    | .error _ => (.reqErrNewSeq, some sv)
+    | .ok (inputs, numKeep) =>
+      match sv.seqs.findIdx? (·.isNone) with
+      | none => (.reqErrNoIndex, some sv)
+      | some i =>
+        match loadCacheSlot sv.cache inputs now (canResumeV sv.crCounted sv.cache.window) with
+        | .error _ => (.reqErrLoad, some sv)
+        | .ok (c, si, rest) =>
+          let sq : Seq := { inputs := rest, pending := [], slot := si, numPredict := np, numPredicted := 0,
+                            numKeep := numKeep, stops := stops, pendingResp := [], iBatch := 0 }
+          (.reqOk i (getSlot c.slots si).id rest.length, some { sv with cache := c, seqs := sv.seqs.set i (some sq) })
+  | .busy prompt =>
+    match loadCacheSlot sv.cache prompt now (canResumeV sv.crCounted sv.cache.window) with
+    | .error .nilDeref => (.busyPanic, some sv)
+    | .error _ => (.busyErr, some sv)
+    | .ok (c, _, _) => (.busyOk, some { sv with cache := c })
+  | .step adopt =>
+    if sv.seqs.all (·.isNone) then (.idle, some sv) else
+    match processBatch sv adopt with
+    | .error .badHint => (.badHint, none)
+    | .error _ => (.stepErr, none)
+    | .ok (sv', o) => (.stepOk sv'.seqs.length o, some sv')
+
+/-- the server state after a whole history (`none`: processBatch failed somewhere); time = event index,
+    as in the driver -/
+def runEvents (sv : Server) : List Event → Nat → Option Server
+  | [], _ => some sv
+  | e :: es, now =>
+    match (runEvent sv now e).2 with
+    | none => none
+    | some sv' => runEvents sv' es (now + 1)
 
 /-! ## runner/llamarunner/cache.go
 
